@@ -294,7 +294,24 @@ fn fault_point_hook(site: &'static str, path: &Path) {
         for a in &plan {
             apply_disk_action(d, a);
         }
-        let rel = path.strip_prefix(&d.root).map(|p| p.to_string_lossy().to_string()).unwrap_or_else(|_| path.to_string_lossy().to_string());
+        // the file system, not tera, decides which file a spelling reaches: `a//b`, `a/./b` and
+        // `a/x/../b` are the file `a/b` of the model's disk
+        let rel = match path.strip_prefix(&d.root) {
+            Ok(p) => {
+                let mut parts: Vec<String> = Vec::new();
+                for c in p.components() {
+                    match c {
+                        std::path::Component::Normal(x) => parts.push(x.to_string_lossy().to_string()),
+                        std::path::Component::ParentDir => {
+                            parts.pop();
+                        }
+                        _ => {}
+                    }
+                }
+                parts.join("/")
+            }
+            Err(_) => path.to_string_lossy().to_string(),
+        };
         let content = match d.disk.get(&rel) {
             Some(DiskNode::File(b)) => Some(b.clone()),
             _ => None,
